@@ -30,6 +30,8 @@ module machinery, get_descriptive_data; poll threads not started).
              D8 read / change / do / activate aimed at unexported modules, unexported accessibles, internal attribute
                 names: refused, nothing delivered (no driver call, no message, no later update)
 
+             D4b the module code assigns (mod.<p> = v) values of every kind the described datainfo excludes to parameters
+                with and without read method, then the parameter is read: everything emitted goes through D4
              D9 commands from the description's side: for every described command every payload of valid + bad built from the
                 described argument datainfo, resp. null and the falsy / truthy JSON values of every kind for a command
                 described without argument: what the description does not allow is refused and runs nothing, canonical
@@ -298,6 +300,14 @@ def gen_configs(shape):
                                  'meaning': ['temperature', 10], 'e': {'value': 'b'}, 'c': {'visibility': 'expert'}}))
         cfgs.append(('cfgconst', {'s': {'constant': 'xy'}, 'ro': {'constant': 5}, 'st': {'constant': {'a': 1, 'b': 'q'}}}))
         cfgs.append(('cfgexport', {'hid': {'export': True}, 'cus': {'export': False}, 'cmd0': {'export': False}}))
+    # the automatic module properties named in the configuration (values of OTHER classes of the catalogue): the
+    # description must still state what the class really implements
+    foreign = {'GA': (['Drivable'], ['HasGenA', 'HasGenB'], 'vf.genmods_node.GC'),
+               'GB': (['Drivable'], ['HasGenB'], 'vf.genmods_node.GC'),
+               'GC': (['Readable'], [], 'vf.genmods_node.GB'),
+               'GD': (['Communicator'], ['HasGenA'], 'frappy.modules.Drivable')}.get(name)
+    if foreign:
+        cfgs.append(('autoprops', {'interface_classes': foreign[0], 'features': foreign[1], 'implementation': foreign[2]}))
     if name == 'GC':
         cfgs.append(('dtprops', {'value': {'unit': 'T'}, 'k': {'max': 9.0, 'unit': '$/s'}, 'target': {'value': 2.5},
                                  'sta': {'default': {'a': 3, 'b': False}}}))
@@ -392,9 +402,14 @@ class NodeUnderTest:
             shape = spec['shape']
             cls = G.make_class(shape)
             hidden = G.HIDDEN_SHAPE if not spec.get('start') else dict(G.HIDDEN_SHAPE, name='GHN', nopoll=True)
-            modcfg = {MOD: dict({'cls': cls}, **json.loads(json.dumps(spec['cfg']))),
-                      'hm': dict(json.loads(json.dumps(G.HIDDEN_CFG)), cls=G.make_class(hidden)),
-                      'vis': {'cls': G.make_class(hidden)}}
+            # three instances of one small class with different export settings (module hidden / plain / single accessibles
+            # hidden or renamed by the cfg), in both declaration orders (alternating with the node)
+            neighbours = [('vis', {'cls': G.make_class(hidden)}),
+                          ('hm', dict(json.loads(json.dumps(G.HIDDEN_CFG)), cls=G.make_class(hidden))),
+                          ('pv', dict(json.loads(json.dumps(G.PARTIAL_CFG)), cls=G.make_class(hidden)))]
+            if sum(map(ord, spec['label'])) % 2:
+                neighbours.reverse()
+            modcfg = dict([(MOD, dict({'cls': cls}, **json.loads(json.dumps(spec['cfg']))))] + neighbours)
             self.ref = G.reference(shape)
             try:
                 self.node = nodes.Node(modcfg, start=bool(spec.get('start')))
@@ -439,7 +454,7 @@ def gen_reference(spec):
     """what a correct description of the generated node must contain: module -> {wire: info}"""
     out = {}
     for modname, shape, cfg in ((MOD, spec['shape'], spec['cfg']), ('vis', G.HIDDEN_SHAPE, {}),
-                                ('hm', G.HIDDEN_SHAPE, G.HIDDEN_CFG)):
+                                ('hm', G.HIDDEN_SHAPE, G.HIDDEN_CFG), ('pv', G.HIDDEN_SHAPE, G.PARTIAL_CFG)):
         ref = G.reference(shape)
         exported = cfg.get('export', True) is not False
         accs = {}
@@ -625,6 +640,11 @@ class Checker:
             if md.get('features') != feats:
                 self.viol('C06:features:differ-from-class-hierarchy', f'structure/{m}/features',
                           f"module {m}: described {md.get('features')}, class hierarchy gives {feats}")
+            mycls = type(mod).__mro__[1]
+            impl = f'{mycls.__module__}.{mycls.__name__}'
+            if md.get('implementation') != impl:
+                self.viol('C06:implementation:differs-from-the-class-of-the-module', f'structure/{m}/implementation',
+                          f"module {m}: described {md.get('implementation')!r}, the module is an instance of {impl!r}")
             mainunit = md['accessibles'].get('value', {}).get('datainfo', {}).get('unit', '')
             from frappy.modulebase import Module
             deferred = type(mod).applyMainUnit is not Module.applyMainUnit
@@ -871,6 +891,79 @@ class Checker:
             self.collect_updates('update-of-driver-reading')
         drv.script.pop(('read', attr), None)
 
+    def assign_outside(self, md, mref):
+        """the module code assigns values of every kind the described datainfo excludes (and valid ones in between) to
+        parameters with and without read method; whatever the node emits afterwards (updates, read replies - a parameter
+        without read method is answered from the cache) goes through D4"""
+        mod = self.node.secnode.modules[MOD]
+        part = self.part
+        for wire, acc in md['accessibles'].items():
+            di = acc.get('datainfo')
+            if not isinstance(di, dict) or di.get('type') == 'command' or 'constant' in acc:
+                continue
+            infos = [i for i in mref['accessibles'].values() if i['wire'] == wire and i['kind'] == 'param']
+            if not infos or infos[0]['rec'].get('xkind'):
+                continue
+            attr = infos[0]['attr']
+            spec = spec_from_datainfo(di)
+            if spec is None:
+                continue
+            k = spec[0]
+            outside = []
+            if k == 'string':
+                outside += ['x' * ((spec[2] if spec[2] is not None else 40) + 17)] + (['x' * (spec[1] - 1)] if spec[1] else [])
+                outside += [5, None]
+            elif k == 'blob':
+                outside += [b'x' * (spec[2] + 17), 'text', 5]
+            elif k == 'array':
+                e = V.valid(spec[1], 'drv')[0]
+                outside += [[e] * (spec[3] + 3), 7, 'x']
+            elif k == 'enum':
+                values = [v for _, v in spec[1]]
+                outside += [max(values) + 7, 'nomember', 2.5]
+            elif k == 'bool':
+                outside += [7, 'maybe']
+            elif k in ('double', 'int', 'scaled'):
+                lo, hi = (T.double_limits(spec)[:2] if k == 'double' else T.int_limits(spec) if k == 'int'
+                          else T.scaled_limits(spec)[1:])
+                outside += [x for x in (hi + 1000, lo - 1000) if abs(x) < 1e300] + ['abc', None, [1]]
+            elif k == 'tuple':
+                outside += [(1,) * (len(spec[1]) + 2), 7]
+            elif k == 'struct':
+                outside += [{'zz': 1}, 7]
+            good = V.valid(spec, 'drv')
+            for v in outside:
+                # a valid value first: the cache holds something the description allows
+                try:
+                    setattr(mod, attr, good[0])
+                except Exception:
+                    pass
+                self.collect_updates('update-after-driver-assignment')
+                G.CLOCK.advance(1.0)
+                try:
+                    setattr(mod, attr, v)
+                    raised = False
+                except Exception:
+                    raised = True
+                part.evaluations += 1
+                part.nontrivial += 1
+                part.transitions += 1
+                msgs = self.c2.take()
+                for msg in msgs:
+                    if msg[0] == 'update' and isinstance(msg[2], list):
+                        self.emitted.append(('update-after-driver-assignment', MOD, wire, msg[2][0]))
+                part.outcomes['assignment:' + ('raised' if raised else 'error-update' if any(x[0] == 'error_update' for x in msgs)
+                                               else 'value-update' if msgs else 'silent')] += 1
+                reply = self.req(f'read {MOD}:{wire}')
+                if reply[0] == 'reply' and isinstance(reply[2], list) and reply[2]:
+                    self.emitted.append(('read-reply-after-driver-assignment', MOD, wire, reply[2][0]))
+                self.collect_updates('update-after-driver-assignment')
+            try:
+                setattr(mod, attr, good[0])
+            except Exception:
+                pass
+            self.collect_updates('update-after-driver-assignment')
+
     # ---- D9: commands from the description's side
     NOARG_PAYLOADS = [None, 0, False, 0.0, -0.0, '', [], {}, 1, True, 2.5, 'x', [0], [None], {'a': 1}, [[]]]
 
@@ -1101,6 +1194,9 @@ class Checker:
                     spec = spec_from_datainfo(acc['datainfo'])
                     if spec:
                         self.feed_readings(m, wire, info['attr'], spec, info['rec']['spec'])
+        # D4b: driver-side assignments (mod.<p> = v, as asynchronous drivers do) of values the described datainfo excludes
+        if self.kind == 'gen' and MOD in desc['modules'] and MOD in ref:
+            self.assign_outside(desc['modules'][MOD], ref[MOD])
         # D9: described commands
         for m, md in desc['modules'].items():
             mod = self.node.secnode.modules.get(m)
